@@ -118,13 +118,20 @@ func UTF8MatchersParser(l *slog.Logger) ParseMatchers {
 func FallbackMatcherParser(l *slog.Logger) ParseMatcher {
 	return func(input, origin string) (matcher *labels.Matcher, err error) {
 		l.Debug("Parsing with UTF-8 matchers parser, with fallback to classic matchers parser", "input", input, "origin", origin)
-		if strings.HasPrefix(input, "{") || strings.HasSuffix(input, "}") {
-			return nil, fmt.Errorf("unexpected open or close brace: %s", input)
-		}
 		// Parse the input in both parsers to look for disagreement and incompatible
 		// inputs.
-		nMatcher, nErr := parse.Matcher(input)
 		cMatcher, cErr := labels.ParseMatcher(input)
+		if strings.HasPrefix(input, "{") || strings.HasSuffix(input, "}") {
+			// A single matcher is not wrapped in braces. The classic parser takes
+			// a trailing brace as part of an unquoted value though (foo=bar}), and
+			// such an input stays accepted.
+			if cErr != nil {
+				return nil, fmt.Errorf("unexpected open or close brace: %s", input)
+			}
+			l.Warn("Alertmanager is moving to a new parser for labels and matchers, and this input is incompatible. Alertmanager has instead parsed the input using the classic matchers parser as a fallback. To make this input compatible with the UTF-8 matchers parser please make sure all regular expressions and values are double-quoted and backslashes are escaped. If you are still seeing this message please open an issue.", "input", input, "origin", origin, "suggestion", cMatcher.String())
+			return cMatcher, nil
+		}
+		nMatcher, nErr := parse.Matcher(input)
 		if nErr != nil {
 			// If the input is invalid in both parsers, return the error.
 			if cErr != nil {
